@@ -15,7 +15,7 @@ RULE = ("operation histories over {enqueue fresh | duplicate of a stored frame |
         "distinct = distinct operation histories (frame ids abstracted).")
 REQUIRED = {"enqueue_return": 50000, "dequeue_compare": 10000, "drain_compare": 50000,
             "bound_after_accept": 10000, "toggle_preserves": 5000, "node_toggle": 50}
-BUDGET = {"quick": 150, "thorough": 600}
+BUDGET = {"quick": 480, "thorough": 900}
 EXHAUSTIVE = {"quick": "all 10^6 operation histories of depth 6", "thorough": "all 10^8 histories of depth 8"}
 
 OPS = ["e_fresh", "e_dup", "e_twin", "e_reuse", "deq", "peek", "len", "max_lo", "max_hi", "toggle"]
